@@ -77,7 +77,35 @@ def recursive_kind(nf, cls: Class, f):
     return None
 
 
+def r1_wire_form_kept(ctx) -> None:
+    """a class with its own wire form (it overrides _to_serial below the class whose resolve it inherits) must not be rebuilt as that
+    base class by resolution: UnitSum is written {"s":"Unit","size":n}, a Sum rebuilt from it {"s":"General","rows":[[],..]}"""
+    prog = ctx.program
+    for mn, base in (("hugr.tys", "Type"), ("hugr.tys", "TypeArg"), ("hugr.tys", "TypeParam")):
+        m = prog.module(mn)
+        b = m.classes.get(base)
+        if b is None:
+            continue
+        for c in m.classes.values():
+            if c is b or b not in c.mro:
+                continue
+            ks, ms = c.find_method("_to_serial")
+            kr, mr = c.find_method("resolve")
+            if ks is None or kr is None or is_stub(ms):
+                continue
+            ok = True
+            if kr is not ks and kr in ks.mro[1:]:
+                # resolve comes from a strict base of the class that defines the wire form: fine only if it answers `self`
+                ps = [q for q in ctx.paths(f"{kr.qualname}.resolve") if q.kind == "return"]
+                ok = bool(ps) and all(q.value_text() == "self" for q in ps)
+            ctx.check(ok, "C11.R1", f"{c.qualname}: keeps its wire form under resolution", c.module.path, c.node.lineno,
+                      f"{c.name} is serialized by {ks.name}._to_serial but resolved by the inherited {kr.name}.resolve, which rebuilds a {kr.name}: "
+                      "a resolved value is written in another form than the unresolved one", c.node,
+                      detail=f"wire form from {ks.name}, resolve from {kr.name}")
+
+
 def r1_structural_recursion(ctx, nf) -> None:
+    r1_wire_form_kept(ctx)
     prog = ctx.program
     todo = [c for c in prog.module("hugr.tys").classes.values()] + [prog.cls("hugr.ops.Custom")]
     n = 0
